@@ -370,4 +370,94 @@ theorem parse_print (ms : List VModule) (hv : ms.all validModule = true) : parse
   simp only [parseVerilog, printVerilog, String.toList_ofList]
   exact parse_layout ms hv [] (layout (modulesT ms)) (layout_map_fst _) rfl (layout_ok _ (modulesT_ok ms hv))
 
+/-! ## token classes: every spelling of every token (audit finding 10(a)) -/
+
+theorem notEscTerm_of_pred (p : Char → Bool) (c : Char) (hc : p c = true) (h1 : p '\t' = false) (h2 : p ' ' = false)
+    (h3 : p '\r' = false) (h4 : p '\n' = false) : notEscTerm c = true := by
+  simp only [notEscTerm, isEscTerm, beq_false_of_pred p hc h1, beq_false_of_pred p hc h2, beq_false_of_pred p hc h3,
+    beq_false_of_pred p hc h4, Bool.or_self, Bool.not_false]
+
+theorem notEscTerm_idChar (c : Char) (hc : isIdChar c = true) : notEscTerm c = true :=
+  notEscTerm_of_pred isIdChar c hc (by decide) (by decide) (by decide) (by decide)
+
+theorem isIdChar_of_idStart (c : Char) (h : isIdStart c = true) : isIdChar c = true := by
+  simp only [isIdStart, Bool.or_eq_true] at h
+  simp only [isIdChar, Bool.or_eq_true]
+  rcases h with h | h
+  · exact Or.inl (Or.inl h)
+  · exact Or.inr h
+
+theorem isIdChar_of_base (c : Char) (h : isBase c = true) : isIdChar c = true := by
+  simp only [isBase, Bool.or_eq_true, beq_iff_eq] at h
+  rcases h with ((((h | h) | h) | h) | h) | h <;> subst h <;> decide
+
+/-- a word that can be lexed can be written as escaped identifier -/
+theorem tokOK_esc_of_word (w : List Char) (h : tokOK (.gen, .word w) = true) : tokOK (.gen, .esc w) = true := by
+  simp only [tokOK, Bool.or_eq_true] at h
+  simp only [tokOK, Bool.and_eq_true, Bool.not_eq_true', List.all_eq_true]
+  rcases h with h | h
+  · cases w with
+    | nil => simp [isIdentWord] at h
+    | cons c r =>
+      simp only [isIdentWord, Bool.and_eq_true, List.all_eq_true] at h
+      refine ⟨rfl, fun x hx => ?_⟩
+      rcases List.mem_cons.mp hx with rfl | hx
+      · exact notEscTerm_idChar _ (isIdChar_of_idStart _ h.1)
+      · exact notEscTerm_idChar _ (h.2 x hx)
+  · obtain ⟨c, ds, b, hh, hs, rfl, hc, hds, hb, hhx, hhs⟩ := constWord_parts w h
+    simp only [List.all_eq_true] at hds hhs
+    refine ⟨rfl, fun x hx => ?_⟩
+    simp only [List.cons_append, List.mem_cons, List.mem_append] at hx
+    rcases hx with rfl | hx | rfl | rfl | rfl | hx
+    · exact notEscTerm_idChar _ (isIdChar_of_digit _ hc)
+    · exact notEscTerm_idChar _ (isIdChar_of_digit _ (hds x hx))
+    · decide
+    · exact notEscTerm_idChar _ (isIdChar_of_base _ hb)
+    · exact notEscTerm_idChar _ (isIdChar_of_hex _ hhx)
+    · exact notEscTerm_idChar _ (isIdChar_of_hex _ (hhs x hx))
+
+/-- a spelling of a token that has a text has a text -/
+theorem tokOK_of_sameTok (c : Ctx) (a t : Tok) (hs : sameTok a t = true) (hok : tokOK (c, t) = true) : tokOK (c, a) = true := by
+  simp only [sameTok, Bool.or_eq_true, beq_iff_eq] at hs
+  rcases hs with hs | hs
+  · rw [hs]; exact hok
+  · cases a with
+    | esc x =>
+      cases t with
+      | word w =>
+        simp only [Bool.and_eq_true, beq_iff_eq] at hs
+        rw [hs.1]
+        cases c <;> first | (exfalso; simp [tokOK] at hok; done) | skip
+        exact tokOK_esc_of_word w hok
+      | _ => simp at hs
+    | num ds =>
+      cases t with
+      | num ds' =>
+        simp only [Bool.and_eq_true] at hs
+        cases c <;> first | (exfalso; simp [tokOK] at hok; done) | skip
+        simp only [tokOK, Bool.and_eq_true]
+        exact hs.1
+      | _ => simp at hs
+    | _ => simp at hs
+
+theorem allOK_of_spells : ∀ (as ts : List CT), spellsB as ts = true → AllOK ts → AllOK as
+  | [], [], _, _ => allOK_nil
+  | [], _ :: _, h, _ => by simp [spellsB] at h
+  | _ :: _, [], h, _ => by simp [spellsB] at h
+  | (c, a) :: r, (c', t) :: r', h, hok => by
+    simp only [spellsB, Bool.and_eq_true, beq_iff_eq] at h
+    obtain ⟨⟨hc, hs⟩, hr⟩ := h
+    subst hc
+    exact allOK_cons (tokOK_of_sameTok c a t hs (hok _ List.mem_cons_self))
+      (allOK_of_spells r r' hr (fun x hx => hok x (List.mem_cons_of_mem _ hx)))
+
+/-- every layout of every SPELLING of the token stream of a valid module list parses to that module list: each name that is
+no statement keyword plain or escaped, each range number in any digit string of its value -/
+theorem parse_layout_cls (ms : List VModule) (hv : ms.all validModule = true) (g0 : List Char)
+    (l : List (CT × List Char)) (hl : spellsB (l.map (·.1)) (modulesT ms) = true) (hg0 : gapV .ws g0 = true)
+    (hlay : layoutOK l = true) : parseChars (g0 ++ renderL l) = some ms := by
+  apply parseChars_of_lexesC ms _ hv
+  have hall := allOK_of_spells _ _ hl (modulesT_ok ms hv)
+  exact lexesC_of_spells (lexes_render l g0 hg0 (fun p hp => hall p.1 (List.mem_map_of_mem hp)) hlay) _ hl
+
 end KV.VerilogText
